@@ -86,8 +86,8 @@ def parseSet (id spec : String) : SetInfo :=
       | p :: s :: ast =>
         let a := ",".intercalate ast
         let cs := a.toList.toArray
-        (({ re := (parseRe cs 0).1, prec := p.toInt?.getD 0, isString := s == "1" } : Token),
-         (if s == "1" then parseLit cs else none))
+        (({ re := (parseRe cs 0).1, prec := p.toInt?.getD 0, isString := natOf s % 2 == 1, immediate := natOf s / 2 == 1 } : Token),
+         (if natOf s % 2 == 1 then parseLit cs else none))
       | _ => (default, none))
     { id := id, toks := toks.map (·.1), texts := toks.map (·.2), word := word, extras := extras }
   | _ => {}
@@ -101,8 +101,8 @@ def isExtraOf (shape : Nat) (c : Nat) : Bool :=
   | 4 => c == 32 || c == 9
   | _ => (9 ≤ c && c ≤ 13) || c == 32
 
-def chooser (si : SetInfo) (useRef : Bool) : List Nat → Option Cand :=
-  let validMain : Nat → Bool := fun i => !si.kws.contains i
+def chooser (si : SetInfo) (useRef : Bool) : Nat → List Nat → Option Cand := fun off =>
+  let validMain : Nat → Bool := validAt si.toks (fun i => !si.kws.contains i) off
   let validKw : Nat → Bool := fun i => si.kws.contains i
   let pick (v : Nat → Bool) : List Nat → Option Cand := if useRef then refToken si.toks v else lexScan si.toks v
   match si.word with
@@ -114,8 +114,8 @@ def parseReal (r : String) : Option (List (Nat × Nat × Nat)) :=
   else if r == "-" then some []
   else some ((r.splitOn ",").map (fun w => match (w.splitOn ":").map natOf with | [a, b, c] => (a, b, c) | _ => (0, 0, 0)))
 
-def pick (si : SetInfo) (useRef : Bool) (kwLexer : Bool) : List Nat → Option Cand :=
-  let v : Nat → Bool := fun i => si.kws.contains i == kwLexer
+def pick (si : SetInfo) (useRef : Bool) (kwLexer : Bool) (off : Nat) : List Nat → Option Cand :=
+  let v : Nat → Bool := fun i => si.kws.contains i == kwLexer && (kwLexer || off == 0 || !(tokAt si.toks i).immediate)
   if useRef then refToken si.toks v else lexScan si.toks v
 
 def classify (si : SetInfo) (a b : Option Cand) : String :=
@@ -126,16 +126,17 @@ def classify (si : SetInfo) (a b : Option Cand) : String :=
 
 /-- kind of the first deviation (lock-step over the input): compares the main lexers, and when both
 return the word token, the keyword lexers -/
-partial def firstDiffKind (si : SetInfo) (cs cr : List Nat → Option Cand) (input : List Nat) : String :=
+partial def firstDiffKind (si : SetInfo) (cs cr : Nat → List Nat → Option Cand) (input : List Nat) : String :=
   let isExtra := isExtraOf si.extras
   let inp := skipExtras isExtra input
+  let off := input.length - inp.length
   if inp.isEmpty then "other" else
-  let a := cs inp; let b := cr inp
+  let a := cs off inp; let b := cr off inp
   if a != b then
-    let ms := pick si false false inp; let mr := pick si true false inp
+    let ms := pick si false false off inp; let mr := pick si true false off inp
     if ms != mr then classify si ms mr
     else match si.word, ms with
-      | some w, some (i, _) => if i == w then classify si (pick si false true inp) (pick si true true inp) else "other"
+      | some w, some (i, _) => if i == w then classify si (pick si false true off inp) (pick si true true off inp) else "other"
       | _, _ => "other"
   else match a with
     | some (_, n) => if n == 0 then "other" else firstDiffKind si cs cr (inp.drop n)
@@ -274,8 +275,22 @@ def evalEvents (si : SetInfo) (valid : Array (List Nat)) (cps : String) (input :
       else
         if scan != real then bad := true
       if tok < 100000 then st := gStep si st tok
-  if bad then a := { a with corrBad := a.corrBad + 1, firstCorr := if a.firstCorr == "" then cps else a.firstCorr }
-  if !same runRef then
+  -- DIFFERENCE 1 through a MERGED lex state: the real lexer returned a token that is not valid in the
+  -- parse state, longer and of lower precedence than the model's choice among the valid tokens
+  -- (the pairwise conflict analysis behind `merge_token_set` does not see three-way overtakes)
+  let mergedOvertake := events.any (fun (tok, pos, en, state) =>
+    let rest := input.drop pos
+    let inp := skipExtras isExtra rest
+    let off := rest.length - inp.length
+    let vs := valid.getD state []
+    tok < 100000 && !vs.contains tok && pos + off ≤ en &&
+      (match lexScan si.toks (fun i => vs.contains i) inp with
+       | some (t', n') => decide ((tokAt si.toks t').prec > (tokAt si.toks tok).prec) && decide (en - pos - off > n')
+       | none => false))
+  if bad && !(isErr && mergedOvertake) then a := { a with corrBad := a.corrBad + 1, firstCorr := if a.firstCorr == "" then cps else a.firstCorr }
+  if isErr && mergedOvertake then
+    a := { a with overtake := a.overtake + 1, firstOvertake := if a.firstOvertake == "" then cps else a.firstOvertake }
+  else if !same runRef then
     if autoDiffKind si input 0 {} == "overtake" then
       a := { a with overtake := a.overtake + 1, firstOvertake := if a.firstOvertake == "" then cps else a.firstOvertake }
     else a := { a with other := a.other + 1, firstOther := if a.firstOther == "" then cps else a.firstOther }
